@@ -23,7 +23,9 @@ def text(lo=1, hi=20, alphabet=PRINTABLE):
     return s.strip() or "x"
 
 
-TRICKY = [b"\\'", b"'\\", b'\\"', b"\\\\'", b"a\\'b", b"'", b'"', b"\\", b"\\\\", b"\\n", b"\n", b" ;", b"; ", b"{", b"#x"]
+TRICKY = [b"\\'", b"'\\", b'\\"', b"\\\\'", b"a\\'b", b"'", b'"', b"\\", b"\\\\", b"\\n", b"\n", b" ;", b"; ", b"{", b"#x",
+          # control bytes: the language has \\r \\n \\t only, everything else is \\xHH (an independent reader knows no \\a \\b \\v \\f)
+          b"\x07\x08id=", b"a\x0bb", b"tail\x0c", b"\x00\x01\x1b\x7f"]
 
 
 def arg_bytes():
